@@ -1,5 +1,5 @@
 (* C11 — the client never advertises a piece it has not verified. *)
-From Rdest Require Import Base Consts Wire Manager MgrProofs Handler HandlerProofs.
+From Rdest Require Import Base Consts Wire Manager MgrProofs Handler HandlerProofs TraceProofs.
 Open Scope N_scope.
 
 (* the bitfield the manager hands to a connection marks exactly the pieces that are Have at that moment,
@@ -49,3 +49,12 @@ Print Assumptions C11_held_back.
 Print Assumptions C11_sent_at_once.
 Print Assumptions C11_flush.
 Print Assumptions C11_owned_is_broadcast.
+
+(* OVER WHOLE RUNS of one connection task, from its start: the Have frames written so far, followed by what is still
+   held back, are exactly the completions broadcast so far, in order -- nothing lost, duplicated or reordered -- and
+   nothing is held back while the peer does not choke us (so an unchoke delivers them all) *)
+Theorem C11_announcements_complete : forall sha1 cf disk ovf evs pid s' acts,
+  run_acts sha1 cf disk ovf (h_init pid) evs = Some (s', acts) ->
+  haves_sent acts ++ h_msg_buff s' = flat_map (fun e => bhave_of (fst e)) evs /\ (h_choked s' = false -> h_msg_buff s' = []).
+Proof. exact announcements_complete. Qed.
+Print Assumptions C11_announcements_complete.
